@@ -216,7 +216,7 @@ SPECS = {
                                                      branchy=True)(tier, seed)
                 + jobs_generic([["SolverHybrid", {}], ["SolverVSA", {}]], "c14a", 40, 400, n=4, branchy=True, alpha="approx",
                                cfg={"hybrid_exact": False})(tier, seed),
-                clauses=QUERY_CLAUSES | TRUTH_CLAUSES | APPROX_CLAUSES | {"isolation"}, level="model_checking"),
+                clauses=QUERY_CLAUSES | TRUTH_CLAUSES | APPROX_CLAUSES | {"isolation"}, level="model_checking", k1w=True),
     "C15": dict(jobs=lambda tier, seed: jobs_generic(PLAIN + [["SolverHybrid", {}]], "c15", 40, 400, n=8, multi=True)(tier, seed)
                 + jobs_generic(COMPOSITE, "c15c", 40, 400, n=8, W=2, alpha="xyz", multi=True)(tier, seed)
                 + [{"mode": "list", "W": 3, "histories": directed_C15(tier, seed)[k::4], "probe": True, "tag": "c15d",
@@ -488,12 +488,23 @@ def tla_lit(t):
 def parse_tla(text):
     """TLA+ value printed by TLC (tuples, sets, strings, naturals, booleans) -> nested Python lists (sets as sorted lists)"""
     import re
-    toks = re.findall(r'<<|>>|\{|\}|,|"[^"]*"|-?\d+|TRUE|FALSE', text)
+    toks = re.findall(r'<<|>>|\{|\}|\[|\]|\|->|,|"[^"]*"|-?\d+|TRUE|FALSE|[A-Za-z_]\w*', text)
     pos = [0]
 
     def val():
         t = toks[pos[0]]
         pos[0] += 1
+        if t == "[":
+            rec = {}
+            while toks[pos[0]] != "]":
+                if toks[pos[0]] == ",":
+                    pos[0] += 1
+                    continue
+                key = toks[pos[0]]
+                pos[0] += 2          # key |->
+                rec[key] = val()
+            pos[0] += 1
+            return rec
         if t in ("<<", "{"):
             close = ">>" if t == "<<" else "}"
             out = []
@@ -623,6 +634,114 @@ def explore_replacement(tier, seed, budget):
     return stats, hists, expect, keys
 
 
+def explore_cow(tier, seed, budget):
+    """K1 for branch() on SolverComposite: TLC explores spec/SolverCompositeCow.tla (two composites sharing child objects,
+    ownership / claiming; AnswerStep + CoverageC, RegWithinVars, OwnedExclusive; negative control 'noclaim'); every
+    reachable state x input is replayed on a real SolverComposite and its branch, with the partition of BOTH compared"""
+    import random
+    import re
+    import shutil
+    import subprocess
+    import tempfile
+    A = composite_alphabet()
+    d = tempfile.mkdtemp(prefix="k1w-", dir=C.scratch())
+    shutil.copy(os.path.join(C.SPEC, "SolverCompositeCow.tla"), d)
+    depth = 3 if tier == "quick" else 4
+    S = lambda xs: "{" + ",".join(map(str, xs)) + "}"            # noqa: E731
+    Q = lambda xs, f: "<<" + ",".join(f(x) for x in xs) + ">>"   # noqa: E731
+    with open(os.path.join(d, "MC.tla"), "w") as f:
+        f.write("---- MODULE MC ----\nEXTENDS SolverCompositeCow\n"
+                f"MC_CVars == {Q(A['cvars'], S)}\nMC_CDen == {Q(A['cden'], S)}\nMC_QVars == {Q(A['qvars'], S)}\n"
+                f"MC_QVal == {Q(A['qval'], lambda r: Q(r, str))}\n====\n")
+    base = ("CONSTANTS\n Variant = \"%s\"\n NV = 3\n NC = %d\n NQ = %d\n NA = 64\n MaxDepth = %d\n CVars <- MC_CVars\n"
+            " CDen <- MC_CDen\n QVars <- MC_QVars\n QVal <- MC_QVal\nSPECIFICATION Spec\nCONSTRAINT DepthOK\nVIEW view\n"
+            "PROPERTY AnswerStep\nINVARIANT CoverageC\nINVARIANT RegWithinVars\nINVARIANT OwnedExclusive\nCHECK_DEADLOCK FALSE\n")
+    with open(os.path.join(d, "MC.cfg"), "w") as f:
+        f.write(base % ("code", len(A["cons"]), len(A["qs"]), depth))
+    with open(os.path.join(d, "MCneg.cfg"), "w") as f:
+        f.write(base % ("noclaim", len(A["cons"]), len(A["qs"]), 3))
+    java = ["java", "-XX:+UseParallelGC", "-Xmx8g", "-cp", C.TLA_CP, "tlc2.TLC", "-workers", "8", "-noGenerateSpecTE"]
+    pn = subprocess.run(java + ["-metadir", os.path.join(d, "mdn"), "-config", "MCneg.cfg", "MC.tla"], cwd=d,
+                        capture_output=True, text=True, timeout=1800)
+    outn = pn.stdout + pn.stderr
+    neg = re.findall(r"Error: (?:Invariant|Action property) (\w+) is violated", outn)
+    if not neg:
+        raise C.MachineryError("vacuity: SolverCompositeCow's properties hold on the negative-control variant 'noclaim':\n" + outn[-1500:])
+    p = subprocess.run(java + ["-metadir", os.path.join(d, "md"), "-config", "MC.cfg", "-dump", os.path.join(d, "states"),
+                               "-coverage", "1", "MC.tla"], cwd=d, capture_output=True, text=True, timeout=3000)
+    out = p.stdout + p.stderr
+    st = C.tlc_stats(out)
+    if st is None:
+        raise C.MachineryError("SolverCompositeCow exploration failed:\n" + out[-3000:])
+    stats = {"states": st["distinct"], "transitions": st["generated"], "depth": depth, "model_violation": None,
+             "negative_control_refuted_by": neg[:1]}
+    if "is violated" in out:
+        stats["model_violation"] = re.findall(r"Error: (.* is violated.*)", out)[:1]
+    for act in ("Add", "Sat", "Eval", "Branch"):
+        m = re.search(r"<%s line \d+, col \d+ to line \d+, col \d+ of module SolverCompositeCow[^>]*>: (\d+):(\d+)" % act, out)
+        if not m or int(m.group(2)) == 0:
+            raise C.MachineryError(f"vacuity: action {act} of SolverCompositeCow was never taken")
+    with open(os.path.join(d, "states.dump")) as f:
+        text = f.read()
+    shutil.rmtree(d, ignore_errors=True)
+    name = {1: "x", 2: "y", 3: "z"}
+    nc = len(A["cons"])
+
+    def ivars(i):
+        return A["cvars"][i - 1] if i <= nc else A["qvars"][i - nc - 1]
+    states = []
+    for block in re.split(r"^State \d+:\s*$", text, flags=re.M)[1:]:
+        pos = {v: block.index("/\\ %s = " % v) for v in ("obj", "comp", "hist", "ret")}
+        order = sorted(pos, key=pos.get)
+        val = {}
+        for i, v in enumerate(order):
+            end = pos[order[i + 1]] if i + 1 < len(order) else len(block)
+            val[v] = parse_tla(block[pos[v]:end].split("=", 1)[1])
+        parts = []
+        for cmp_ in val["comp"]:
+            if not cmp_["live"]:
+                continue
+            kids = {}
+            for v, oid in enumerate(cmp_["reg"], 1):
+                if oid:
+                    kids.setdefault(oid, []).append(name[v])
+            parts.append({"parts": sorted([sorted(regs), sorted({name[x] for it in val["obj"][oid - 1] for x in ivars(it)})]
+                                          for oid, regs in kids.items()), "flag": cmp_["flag"]})
+        states.append({"hist": val["hist"], "expect": parts})
+    if len(states) != st["distinct"]:
+        raise C.MachineryError(f"state dump has {len(states)} states, TLC reports {st['distinct']}")
+
+    def to_op(t):
+        o, c, a = t
+        sid = c - 1
+        if o == 1:
+            return ["add", sid, [A["cons"][a - 1]]]
+        if o == 2:
+            return ["satisfiable", sid, []]
+        if o == 3:
+            return ["eval", sid, A["qs"][a - 1], 5, []]
+        return ["branch", 0]
+
+    allh = []
+    for sd in states:
+        live = len(sd["expect"])
+        ins = [(1, c, k) for c in range(1, live + 1) for k in range(1, nc + 1)] + [(2, c, 0) for c in range(1, live + 1)] + \
+              [(3, c, q) for c in range(1, live + 1) for q in range(1, len(A["qs"]) + 1)] + ([(4, 1, 0)] if live == 1 else [])
+        allh += [(sd, i) for i in ins]
+    stats["state_histories"] = len(states)
+    stats["transition_histories"] = len(allh)
+    rng = random.Random(seed)
+    if len(allh) > budget:
+        allh = [allh[i] for i in sorted(rng.sample(range(len(allh)), budget))]
+    stats["replayed"] = len(allh)
+    hists, expect = [], []
+    for sd, i in allh:
+        hists.append([["new", "SolverComposite", {}]] + [to_op(t) for t in sd["hist"]] +
+                     [["partition", k] for k in range(len(sd["expect"]))] + [to_op(i)])
+        expect.append(sd["expect"])
+    return stats, hists, expect
+
+
 def simplify_stream(R, pid, tier, seed):
     """C09, solver level: Solver.simplify() (explicit, or implied by min / max / eval) keeps the model set, also when some
     constraints carry a SimplificationAvoidanceAnnotation and the rest simplifies to a conjunction"""
@@ -706,6 +825,14 @@ def check(pid, tier, regen=False):
             if hists[k::n]:
                 jobs.append({"mode": "list", "W": 2, "alpha": "xyz", "histories": hists[k::n], "expect_parts": expect[k::n],
                              "probe": True, "tag": "k1c", "env": {"REUSE_Z3_SOLVER": "0"}})
+    k1w = None
+    if spec.get("k1w"):
+        k1w, hists, expect = explore_cow(tier, seed, 1200 if tier == "quick" else 40000)
+        n = 16
+        for k in range(n):
+            if hists[k::n]:
+                jobs.append({"mode": "list", "W": 2, "alpha": "xyz", "histories": hists[k::n], "expect_parts": expect[k::n],
+                             "probe": True, "tag": "k1w", "env": {"REUSE_Z3_SOLVER": "0"}})
     k1r = None
     if spec.get("k1r"):
         k1r, hists, expect, keys = explore_replacement(tier, seed, 1200 if tier == "quick" else 40000)
@@ -779,6 +906,27 @@ def check(pid, tier, regen=False):
         if k1c["partition_drift"]:
             R.notes.append("SPEC-DRIFT: %d of %d replayed histories end in a partition other than the model's" %
                            (k1c["partition_drift"], k1c["partition_checked"]))
+    if k1w:
+        k1w["partition_checked"] = st.get("partition_checked", 0)
+        k1w["partition_drift"] = st.get("partition_drift", 0)
+        k1w["partition_finer_than_model"] = st.get("partition_finer", 0)
+        k1w["drift_samples"] = [x for s_ in stats for x in s_.get("drift_samples", [])][:3]
+        if k1w["partition_checked"] != k1w["replayed"]:
+            raise C.MachineryError(f"partitions observed for {k1w['partition_checked']} of {k1w['replayed']} replayed histories")
+        R.coverage["exploration"] = k1w
+        R.coverage["states"] = k1w["states"]
+        R.coverage["transitions"] = k1w["transitions"]
+        R.coverage["explanation"] = ("states/transitions: TLC exploration of spec/SolverCompositeCow.tla (a SolverComposite and its "
+                                     "branch sharing child objects; ownership and claiming; AnswerStep per composite + CoverageC, "
+                                     "RegWithinVars, OwnedExclusive; negative control 'noclaim' refuted) to depth %d; %d of %d state "
+                                     "x input histories replayed on the real class and its branch, the partitions of both compared "
+                                     "with the model's (no verdict); every call validated against SolverAbs (isolation clause)"
+                                     % (k1w["depth"], k1w["replayed"], k1w["transition_histories"]))
+        if k1w["model_violation"]:
+            R.notes.append("SPEC-DRIFT: refined model violates %s" % k1w["model_violation"])
+        if k1w["partition_drift"]:
+            R.notes.append("SPEC-DRIFT: %d of %d replayed histories end in partitions other than the model's" %
+                           (k1w["partition_drift"], k1w["partition_checked"]))
     if k1r:
         k1r["refined_state_checked"] = st.get("partition_checked", 0)
         k1r["refined_state_drift"] = st.get("partition_drift", 0)
